@@ -187,7 +187,22 @@ def cases(draw):
         g.vars_before = dict(g.vars)
         body = g.selections("Query", draw(st.integers(0, 8)))
         ops.append((names[i] if n_ops > 1 or draw(st.booleans()) else None, body))
-    vd = ", ".join("$%s: Boolean!" % v for v in g.vars)
+    # declarations: required, or with a default; a variable with a default may be left out of the request (the default
+    # - chosen equal to the effective value the reference works with - then applies), or be provided (the default loses)
+    decl, omit = {}, []
+    for v in g.vars:
+        k = draw(st.integers(0, 5))
+        if k <= 2:
+            decl[v] = "Boolean!"
+        elif k == 3:
+            decl[v] = "Boolean = %s" % ("true" if g.vars[v] else "false")
+            omit.append(v)
+        elif k == 4:
+            decl[v] = "Boolean! = %s" % ("true" if g.vars[v] else "false")
+            omit.append(v)
+        else:
+            decl[v] = "Boolean = %s" % ("false" if g.vars[v] else "true")
+    vd = ", ".join("$%s: %s" % (v, decl[v]) for v in g.vars)
     parts = []
     for name, body in ops:
         head = ("query %s%s " % (name or "", "(%s)" % vd if vd else "")) if (name or vd) else ""
@@ -198,7 +213,7 @@ def cases(draw):
     more = []
     if g.vars and draw(st.booleans()):
         more = [{v: draw(st.booleans()) for v in g.vars} for _ in range(draw(st.integers(1, 2)))]
-    return {"text": text, "variables": g.vars, "more_variables": more, "limit": draw(st.integers(0, 10)),
+    return {"text": text, "variables": g.vars, "omit": omit, "more_variables": more, "limit": draw(st.integers(0, 10)),
             "operation_name": draw(st.sampled_from([None, None, "A", "B", "Nope"])),
             "via": draw(st.sampled_from(["direct", "validate_ast"]))}
 
@@ -215,7 +230,7 @@ def check(case):
         if shared is None:
             shared = {}
             check_one(case, shared)          # first use of the shared rule: the case's own variables
-        c2 = dict(case, variables=mv)
+        c2 = dict(case, variables=mv, omit=[])
         v2, _ = check_one(c2, shared)
         if v2:
             fresh, _ = check_one(c2, None)
@@ -246,11 +261,12 @@ def check_one(case, shared):
         doc = parse(text)
         if shared is not None:
             shared["rule"], shared["doc"] = rule, doc
+    provided = {k: v for k, v in variables.items() if k not in (case.get("omit") or [])}
     try:
         if case["via"] == "direct":
-            errs = rule(schema(), doc, dict(variables))
+            errs = rule(schema(), doc, provided)
         else:
-            errs = validate_ast(schema(), doc, validators=[rule], variables=dict(variables)).errors
+            errs = validate_ast(schema(), doc, validators=[rule], variables=provided).errors
     except Exception as e:  # noqa
         d = max(considered.values()) if considered else None
         why = "flat-operation" if d == 0 else _why(case, considered, "raise")
